@@ -21,7 +21,8 @@ TRUSTED = []
 SETUP = [["conn"], ["conn"], C(0, "auth nun pwd"), C(0, "create-db dn tok newer"), C(1, "use-db dn tok"), C(0, "use-db dn tok"),
          C(0, "watch a")]
 ALPHA = [[C(1, "set a p")]] + [[C(1, "set-safe a %d q%d" % (v, v))] for v in (-1, 0, 1, 2, 3)] + \
-        [[C(1, "remove a")], [C(1, "get-safe a")], [C(0, "snapshot false"), ["flush"]], [C(1, "increment a")]]
+        [[C(1, "remove a")], [C(1, "get-safe a")], [C(0, "snapshot false"), ["flush"]], [C(1, "increment a")]] + \
+        [[C(0, "replicate dn a %d r%d" % (v, v + 1))] for v in (-1, 0, 2)]      # a write arriving over a replication link
 
 
 def driver_of(case):
@@ -76,6 +77,8 @@ def gen_cases(tier, seed):
                 ops.append(C(1, "set %s v%d" % (key, rng.randint(0, 9))))
             elif r < 0.75:
                 ops.append(C(1, "set-safe %s %d w%d" % (key, max(-1, rng.choice([-1, cur - 2, cur - 1, cur, cur + 1, 0, 1, 100])), rng.randint(0, 9))))
+            elif r < 0.79 and not admin_db:
+                ops.append(C(0, "replicate dn %s %d z%d" % (key, max(-1, rng.choice([-1, cur - 2, cur - 1, cur, 0, 1])), rng.randint(0, 9))))
             elif r < 0.83:
                 ops.append(C(1, "remove %s" % key))
             elif r < 0.93:
@@ -147,7 +150,11 @@ def oracle(case, io, mo):
         if op[0] == "cmd" and i >= 6:
             line = line_of(op)
             w = line.split(" ", 3)
-            if w[0] in ("set", "set-safe") and op[1] == "1":
+            if w[0] == "replicate" and op[1] == "0":
+                # replicate <db> <key> <version> <value>: the same write arriving over a replication link
+                t = line.split(" ", 4)
+                w = ["set-safe", t[2], t[3], t[4] if len(t) > 4 else ""]
+            if w[0] in ("set", "set-safe") and (op[1] == "1" or line.startswith("replicate ")):
                 key = w[1]
                 val = (w[2] if len(w) > 2 else "") if w[0] == "set" else (w[3] if len(w) > 3 else None)
                 old = prev.get(key)
